@@ -32,6 +32,8 @@ func scenarios(tier string) []sched.Scenario {
 		{Name: "leader-crash", Fault: "leader-crash", Clients: 1, PerCli: 1, SyncData: true},
 		{Name: "coord-crash", Fault: "coord-crash", Clients: 1, PerCli: 1, SyncData: true},
 		{Name: "swap", Fault: "swap", Clients: 1, PerCli: 1, SyncData: true},
+		{Name: "swap-unreachable", Fault: "swap-unreachable", Clients: 1, PerCli: 1, SyncData: true},
+		{Name: "rolling-isolation", Fault: "rolling-isolation", Clients: 0, PerCli: 0, SyncData: true},
 		{Name: "leader-crash-restart", Fault: "leader-crash-restart", Clients: 1, PerCli: 1, SyncData: true},
 	}
 	dev := 1
